@@ -94,7 +94,14 @@ def _tracer(baton, tidx, prefixes):
     def glob(frame, event, arg):
         fn = frame.f_code.co_filename
         for p in prefixes:
-            if fn.startswith(p):
+            if isinstance(p, tuple):
+                # (directory prefix, {basename: None | set of function names})
+                d, sel = p
+                if fn.startswith(d):
+                    names = sel.get(fn[len(d):], False)
+                    if names is None or (names and frame.f_code.co_name in names):
+                        return local
+            elif fn.startswith(p):
                 return local
         return None
 
